@@ -76,6 +76,40 @@ impl SourceFile {
     }
 }
 
+/// Arguments of a macro invocation as expressions: the token stream is split at top-level commas and
+/// every piece is parsed on its own; a piece that is not an expression (a keyword such as `mod`, a type)
+/// becomes `Expr::Verbatim` so that closures in later positions stay reachable.
+pub fn macro_args(m: &syn::Macro) -> Vec<syn::Expr> {
+    use proc_macro2::{TokenStream, TokenTree};
+    use syn::parse::discouraged::Speculative;
+    use syn::parse::{ParseStream, Parser};
+    let parser = |input: ParseStream| -> syn::Result<Vec<syn::Expr>> {
+        let mut v = vec![];
+        while !input.is_empty() {
+            let fork = input.fork();
+            match fork.parse::<syn::Expr>() {
+                Ok(e) if fork.is_empty() || fork.peek(syn::Token![,]) => {
+                    input.advance_to(&fork);
+                    v.push(e);
+                }
+                _ => {
+                    let mut ts = TokenStream::new();
+                    while !input.is_empty() && !input.peek(syn::Token![,]) {
+                        let t: TokenTree = input.parse()?;
+                        ts.extend(std::iter::once(t));
+                    }
+                    v.push(syn::Expr::Verbatim(ts));
+                }
+            }
+            if input.peek(syn::Token![,]) {
+                input.parse::<syn::Token![,]>()?;
+            }
+        }
+        Ok(v)
+    };
+    parser.parse2(m.tokens.clone()).unwrap_or_default()
+}
+
 pub fn norm(s: &str) -> String {
     s.chars().filter(|c| !c.is_whitespace()).collect()
 }
